@@ -8,6 +8,7 @@ import PrioModel.TraceVdaf
 import PrioModel.IdpfExec
 import PrioModel.Poly
 import PrioModel.Flp
+import PrioModel.Prio3
 
 /-! Line-protocol driver: one request per line on stdin, one answer per line on stdout. -/
 open Prio
@@ -514,10 +515,118 @@ def handleFlp (op : String) (args : List String) : String :=
       | _, _ => "bad-op"
   | _ => "bad-op"
 
+/-- XOF table recorded from the real run: `seed:dst:binder:out` entries -/
+def parseXofTable (s : String) : Option (Array (List Nat × List Nat × List Nat × Array Nat)) :=
+  if s == "none" then some #[] else
+  ((s.splitOn ",").mapM fun (e : String) =>
+    match e.splitOn ":" with
+    | [sd, d, b, o] => do pure (← parseHex sd, ← parseHex d, ← parseHex b, (← parseHex o).toArray)
+    | _ => none).map List.toArray
+
+/-- positions beyond what the real run read are marked with 0x1ff (never a byte) -/
+def tableXof (tbl : Array (List Nat × List Nat × List Nat × Array Nat)) : Prio3.Xof := fun seed d b =>
+  match tbl.find? (fun e => e.1 == seed && e.2.1 == d && e.2.2.1 == b) with
+  | some e => fun i => e.2.2.2.getD i 511
+  | none => fun _ => 511
+
+def splitAt' (bs : List Nat) (n : Nat) : List Nat × List Nat := (bs.take n, bs.drop n)
+
+def handleP3 (args : List String) : String :=
+  match args with
+  | op :: f :: ts :: na :: np :: alg :: slw :: ctxh :: rest =>
+    match parseTypeSpec ts, na.toNat?, np.toNat?, alg.toNat?, slw.toNat?, parseHex ctxh, rest.getLast?.bind parseXofTable with
+    | some t, some na, some np, some alg, some slw, some ctx, some tbl =>
+      withField f fun q sz =>
+        let C := fieldCtx f q
+        let cfg : Prio3.Cfg := { t := t, numAgg := na, numProofs := np, algId := alg, p := q + 1, mask := fieldMask f, sz := sz }
+        let cv : Prio3.Conv (Fin (q + 1)) := ⟨Fin.ofNat (q + 1), fun x => x.val⟩
+        let xof := tableXof tbl
+        let jr := t.jointRandLen > 0
+        let ss := cfg.seedSize
+        let decVec (bs : List Nat) : Option (List (Fin (q + 1))) := decodeFieldVec q sz bs
+        -- decode an input share for aggregator `id` (length-exact, canonical elements)
+        let decInput (id : Nat) (bs : List Nat) : Option (Prio3.InputShare (Fin (q + 1))) :=
+          if id ≥ na then none
+          else if id = 0 then
+            let ml := t.inputLen * sz
+            let pl := t.proofLen * np * sz
+            if bs.length ≠ ml + pl + (if jr then ss else 0) then none
+            else
+              match decVec (bs.take ml), decVec ((bs.drop ml).take pl) with
+              | some m, some p => some (.leader m p (if jr then some (bs.drop (ml + pl)) else none))
+              | _, _ => none
+          else
+            if bs.length ≠ ss + (if jr then ss else 0) then none
+            else some (.helper (bs.take ss) (if jr then some (bs.drop ss) else none))
+        let decPub (bs : List Nat) : Option (Option (List (List Nat))) :=
+          if jr then
+            if bs.length ≠ na * ss then none else some (some ((List.range na).map fun i => (bs.drop (i * ss)).take ss))
+          else if bs.isEmpty then some none else none
+        let encState (st : Prio3.VerifyState (Fin (q + 1))) : List Nat :=
+          (match st.share with | .inl v => Prio3.encVec cfg cv v | .inr s => s) ++ st.jointRandSeed.getD []
+        let encVShare (sh : Prio3.VerifierShare (Fin (q + 1))) : List Nat :=
+          Prio3.encVec cfg cv sh.verifiers ++ sh.jointRandPart.getD []
+        match op, rest.dropLast with
+        | "shard", [nonce, random, encoded] =>
+          match parseHex nonce, parseHex random, hexVec q sz encoded with
+          | some n, some r, some e =>
+            match Prio3.shard C cfg cv xof ctx n r e with
+            | .ok out => "ok " ++ " ".intercalate (toHex (Prio3.encodePublicShare out) :: out.shares.map fun s => toHex (Prio3.encodeInputShare cfg cv s))
+            | .err => "err"
+            | .panic => "panic"
+          | _, _, _ => "bad-op"
+        | "vinit", [key, id, nonce, pub, inp] =>
+          match parseHex key, id.toNat?, parseHex nonce, parseHex pub, parseHex inp with
+          | some k, some id, some n, some pb, some ib =>
+            match decPub pb, decInput id ib with
+            | some pp, some share =>
+              match Prio3.verifyInit C cfg cv xof slw k ctx id n pp share with
+              | .ok (st, sh) => s!"ok {toHex (encState st)} {toHex (encVShare sh)}"
+              | .err => "err"
+              | .panic => "panic"
+            | _, _ => "undecodable"
+          | _, _, _, _, _ => "bad-op"
+        | "vmsg", shares =>
+          let vl := t.verifierLen * np * sz
+          let dec (h : String) : Option (Prio3.VerifierShare (Fin (q + 1))) := do
+            let bs ← parseHex h
+            if bs.length ≠ vl + (if jr then ss else 0) then none
+            else
+              let v ← decVec (bs.take vl)
+              pure ⟨v, if jr then some (bs.drop vl) else none⟩
+          match shares.mapM dec with
+          | some shs =>
+            match Prio3.sharesToMessage C cfg xof ctx shs with
+            | .ok m => "ok " ++ toHex (m.getD [])
+            | .err => "err"
+            | .panic => "panic"
+          | none => "undecodable"
+        | "vnext", [id, state, msg] =>
+          match id.toNat?, parseHex state, parseHex msg with
+          | some id, some sb, some mb =>
+            let shareLen := if id = 0 then t.outputLen * sz else ss
+            if sb.length ≠ shareLen + (if jr then ss else 0) ∨ mb.length ≠ (if jr then ss else 0) then "undecodable"
+            else
+              let share : Option (Sum (List (Fin (q + 1))) (List Nat)) :=
+                if id = 0 then (decVec (sb.take shareLen)).map .inl else some (.inr (sb.take shareLen))
+              match share with
+              | some sh =>
+                let st : Prio3.VerifyState (Fin (q + 1)) := ⟨sh, if jr then some (sb.drop shareLen) else none, id, t.verifierLen * np⟩
+                match Prio3.verifyNext C cfg cv xof slw ctx st (if jr then some mb else none) with
+                | .ok o => "ok " ++ toHex (Prio3.encVec cfg cv o)
+                | .err => "err"
+                | .panic => "panic"
+              | none => "undecodable"
+          | _, _, _ => "bad-op"
+        | _, _ => "bad-op"
+    | _, _, _, _, _, _, _ => "bad-op"
+  | _ => "bad-op"
+
 def handle (line : String) : String :=
   match line.trimAscii.toString.splitOn " " with
   | "fp" :: rest => handleFp rest
   | "dec" :: rest => handleDec rest
+  | "p3" :: rest => handleP3 rest
   | "flp" :: op :: rest => handleFlp op rest
   | "poly" :: op :: rest => handlePoly op rest
   | "idpf" :: rest => handleIdpf rest
